@@ -538,7 +538,10 @@ class ModeSim(Sim):
             with quiet():
                 gr = x.grad
             if m["kind"] == "leaf" or x.grad_fn is None:
-                if x.requires_grad and gr is None and i != root:
+                # a leaf receives a gradient only through consumers that were built while it required grad
+                # (a flag switched on AFTER the graph was built does not make the leaf part of it)
+                fed = any(st.meta[c].get("flags_at_build", {}).get(i) for c in reach if i in st.meta[c].get("tracked_inputs", []))
+                if x.requires_grad and fed and gr is None and i != root:
                     st.fail("C07.leaf_keeps_grad", f"leaf {i} requires grad and is reachable from the root but has no .grad after backward", leaf=i)
                 continue
             if i == root:
